@@ -277,6 +277,25 @@ class CallMixin:
                     return self.call_lambda(ty[1], ty[2], args, kwargs, node)
         if h == "builtin":
             return self.call_builtin(t[1], args, kwargs, node)
+        if h == "partial":
+            inner, pre, prekw = self.partials[t]
+            kw2 = dict(prekw)
+            kw2.update(kwargs)
+            return self.call_value(inner, list(pre) + list(args), kw2, node)
+        if h == "attrgetter" and len(args) == 1 and not kwargs:
+            return self.getattr_value(args[0], t[1], node)
+        if h == "methodcaller" and len(args) == 1 and not kwargs:
+            margs, mkw = self.partials[t]
+            return self.call_attr(args[0], t[1], list(margs), dict(mkw), node)
+        if h == "ntcls":
+            # collections.namedtuple class: an instance is a tuple whose fields are also reachable by name
+            fields = t[2]
+            vals = list(args) + [kwargs[k] for k in fields[len(args):] if k in kwargs]
+            if len(vals) == len(fields):
+                tv = V(("tuple", tuple(v.t for v in vals)), [py("tuple")], self._deps(vals))
+                self.ntfields[tv.t] = fields
+                self._remember(vals)
+                return tv
         if h == "ext":
             return self.call_external(t[1], args, kwargs, node)
         if h == "bmeth":
@@ -687,6 +706,25 @@ class CallMixin:
 
     # ---------------------------------------------------------------- externals
     def call_external(self, dotted, args, kwargs, node):
+        if dotted == "functools.partial" and args:
+            t = ("partial", args[0].t, tuple(a.t for a in args[1:]), tuple(sorted((k, v.t) for k, v in kwargs.items())), self.fresh(node))
+            self.partials[t] = (args[0], list(args[1:]), dict(kwargs))
+            return V(t, [py("callable")], self._deps(args))
+        if dotted == "operator.attrgetter" and len(args) == 1 and is_const(args[0]) and isinstance(args[0].t[1], str) and "." not in args[0].t[1]:
+            return V(("attrgetter", args[0].t[1]), [py("callable")])
+        if dotted == "operator.methodcaller" and args and is_const(args[0]) and isinstance(args[0].t[1], str):
+            t = ("methodcaller", args[0].t[1], tuple(a.t for a in args[1:]), self.fresh(node))
+            self.partials[t] = (list(args[1:]), dict(kwargs))
+            return V(t, [py("callable")], self._deps(args))
+        if dotted == "collections.namedtuple" and len(args) >= 2 and is_const(args[0]):
+            f = args[1]
+            fields = None
+            if f.t[0] in ("list", "tuple") and all(x[0] == "const" and isinstance(x[1], str) for x in f.t[1]):
+                fields = tuple(x[1] for x in f.t[1])
+            elif is_const(f) and isinstance(f.t[1], str):
+                fields = tuple(f.t[1].replace(",", " ").split())
+            if fields is not None:
+                return V(("ntcls", args[0].t[1], fields), [py("type")])
         if dotted == "collections.deque" and not kwargs and len(args) <= 1:
             # a double-ended queue is modelled as a list: popleft() = pop(0), appendleft(x) = insert(0, x)
             if not args:
@@ -740,6 +778,11 @@ class CallMixin:
     # ---------------------------------------------------------------- builtins
     def call_builtin(self, name, args, kwargs, node):
         dep = self._deps(args)
+        if name == "slice" and 1 <= len(args) <= 3 and not kwargs:
+            # slice(a, b[, c]) is the same value as the subscript form a:b[:c]
+            parts = [NONE, args[0], NONE] if len(args) == 1 else [args[0], args[1], args[2] if len(args) == 3 else NONE]
+            self._remember(args)
+            return V(("slice",) + tuple(p_.t for p_ in parts), [py("slice")], dep)
         if name == "isinstance":
             return self.bi_isinstance(args[0], args[1], node).with_dep(dep)
         if name == "issubclass":
